@@ -467,6 +467,18 @@ def gen(ctx, emit):
         for r in sorted({1, 2, 3, p - 1, p, p + 1, n - 2, n - 1}):
             if 1 <= r < n:
                 emit("recover %s 5 %d 3 ~" % (tok, r))
+    # generators that are EQUAL AS TUPLES (same base-point coordinates) but different groups, used alternately in one
+    # process: recovery and signing on each must not be influenced by what another one was asked before
+    fam = cc.shared_base_family()
+    fam = fam[:4] + (fam[4:] if ctx.thorough else rng.sample(fam[4:], min(2, len(fam[4:]))))
+    for r in range(1, ctx.n(9, 30)):
+        for tok in fam:
+            n = consts(tok)[5]
+            if r < n:
+                emit("recover %s 5 %d 3 ~" % (tok, r), "shared-base-point")
+                emit("recover %s %d %d %d %s" % (tok, 1 + r % 7, r, 1 + (2 * r) % (n - 1), "01"[r & 1]), "shared-base-point")
+    for tok in fam[:3]:
+        emit("toy_sign %s 2 %d" % (tok, 6), "shared-base-point")
     chosen = rng.sample(toy, ctx.n(2, 40))
     for tok in chosen:
         p, ca, cb, gx, gy, n = consts(tok)
